@@ -65,7 +65,8 @@ func (r *recConn) EnqueueOutFrag(f *core.Frag) {
 // ---------- topology / config ----------
 
 type simTopo struct {
-	pools []struct {
+	removed map[string]bool // nodes that left the topology during the run (harness-side bookkeeping, not printed)
+	pools   []struct {
 		addr  string
 		slave bool
 	}
@@ -86,6 +87,9 @@ func (t *simTopo) owner(slot int) (master string, slaves []string, ok bool) {
 }
 
 func (t *simTopo) hasPool(addr string) bool {
+	if t.removed[addr] {
+		return false
+	}
 	for _, p := range t.pools {
 		if p.addr == addr {
 			return true
@@ -1168,6 +1172,23 @@ func (r *simRun) apply(ev string) (alive bool) {
 	case "T":
 		_, _ = r.env.env.RunTasks()
 		r.model = append(r.model, "T")
+		r.noteProxyClosedBackends()
+	case "K":
+		// a node leaves the topology: what `ticker` does for an address that is no longer in the server map
+		p, _ := strconv.Atoi(f[1])
+		if p < len(r.topo.pools) && !r.topo.removed[r.topo.pools[p].addr] {
+			addr := r.topo.pools[p].addr
+			if pool, ok := core.EngineGlobal.ProxyPool[addr]; ok {
+				pool.Close()
+				delete(core.EngineGlobal.ProxyPool, addr)
+			}
+			if r.topo.removed == nil {
+				r.topo.removed = map[string]bool{}
+			}
+			r.topo.removed[addr] = true
+			r.tags["node-removed"] = true
+			r.model = append(r.model, fmt.Sprintf("K %d", p))
+		}
 	case "s":
 		j, _ := strconv.Atoi(f[1])
 		kind, arg := "ok", ""
@@ -1227,6 +1248,26 @@ func (r *simRun) apply(ev string) (alive bool) {
 		r.checkClients("after event `" + strings.TrimSpace(ev) + "`")
 	}
 	return true
+}
+
+// noteProxyClosedBackends: connections the proxy itself closed (a removed node's pool): whatever they carried is lost
+func (r *simRun) noteProxyClosedBackends() {
+	r.refreshBackends()
+	for j, b := range r.backends {
+		if !b.closed && b.peer.vc.Opened() && r.topo.removed[b.peer.addr] {
+			// C15: the close tasks of a removed node's pool have run (they were queued before this T)
+			r.fail("C15: node %s was removed from the topology but its connection %d is still open after the poller ran its tasks: requests in flight on it are never failed", b.peer.addr, j)
+		}
+		if b.closed || b.peer.vc.Opened() {
+			continue
+		}
+		b.closed = true
+		for _, cmd := range b.cmds[b.answered:] {
+			r.noteAnswered(j, cmd, "lost", nil)
+		}
+		b.answered = len(b.cmds)
+		r.markQueuedLost(j)
+	}
 }
 
 // markQueuedLost: fragments enqueued to backend j but not yet written (no runTasks since) are failed by the proxy.
@@ -1300,6 +1341,9 @@ func (r *simRun) domainTags() []string {
 	}
 	if r.tags["request-cut-across-reads"] {
 		t = append(t, "dom:C08")
+	}
+	if r.tags["node-removed"] {
+		t = append(t, "dom:C15")
 	}
 	return t
 }
